@@ -93,6 +93,24 @@ class Gen:
         return self.r.randrange(n)
 
 
+class MinGen(Gen):
+    """values for inputs a replayed counter-model / witness does not mention (the model leaves them unconstrained): the least ones -
+    False, the lower bound (0 when there is none and 0 is allowed), the first choice, the shortest sequence"""
+    def int(self, name, lo, hi):
+        if lo is None:
+            return 0 if (hi is None or hi > 0) else hi - 1
+        return lo
+
+    def bool(self, name):
+        return False
+
+    def length(self, name, minlen, maxlen):
+        return minlen
+
+    def choice(self, name, n):
+        return 0
+
+
 def real_exception(name, *args):
     """instance of the real exception class called `name` (stubs of a unit must raise what the real code can catch)"""
     import builtins, struct as _s, binascii as _b, socket as _sk
@@ -131,8 +149,8 @@ class ConcE:
             v = default_fn()
         else:
             # replay of a counter-model / witness that does not mention this input (the symbolic run never drew it, e.g. behind a contract):
-            # the model leaves it unconstrained, so any value will do - a fixed seeded one
-            self.gen = Gen(20260926)
+            # the model leaves it unconstrained, so any value will do - the least one
+            self.gen = MinGen(20260926)
             try:
                 v = default_fn()
             finally:
